@@ -11,6 +11,30 @@ FLOCQ = ("Axioms (standard library, via Flocq's Reals): ClassicalDedekindReals.s
          "FunctionalExtensionality.functional_extensionality_dep, Classical_Prop.classic - only under theorems that mention float64. ")
 
 CLAIMED = {
+    "C01": dict(
+        text="Full (safety, unbounded) on the v2 model: for every divider (stateful and faulty ones included, only assumed to return a map), every mix of buffered and unbuffered inputs and every interleaving of producers, consumers, releases and clock ticks, each priority's in-flight counter equals the items of that priority in the output buffer, held by handlers and waiting in the feedback channel, the total never exceeds HandlersQuantity, and inside a round actual+tactic stays within it (C01_v2_accounting/capacity/round_budget). The model is tied to v2 and v1 by exact comparison, after every driver operation, of deliveries, output length, the scheduling state (actual/strategic per priority, read through a build-tagged snapshot hook) and the divider-call arguments; the capacity is monitored on the implementation, in v1 also across AddInput/RemoveInput. v1 theorems (same invariant over the v1 machine) are in progress; the simplified disciplines are covered by monitors only (partial).",
+        ref="5.C01", note=STD + "No axioms. Environment assumption: handlers release only items they received (otherwise the unsigned counter wraps: API misuse).",
+        technique="Coq inductive invariant over a pc-machine/environment LTS + fake-time differential correspondence with state snapshots"),
+    "C02": dict(
+        text="Full on the v2 model: for every reachable state and configured priority, delivered-of-p ++ item in flight inside send ++ input queue = everything written to p (C02_v2_split), every delivered tag is a configured priority, and at normal termination delivered-of-p = written-of-p: exactly once, in order, nothing invented (C02_v2_exactly_once). Tied to v2 and v1 by exact comparison of the delivered (priority,item) sequence and per-channel consumption; exactly-once/FIFO/tagging monitored on the implementation (v1: tags against the registration in force when the item was read).",
+        ref="5.C02", note=STD + "No axioms. Put on a closed input is not enabled (Go panics).",
+        technique="Coq inductive invariant (per-priority split) + fake-time differential correspondence"),
+    "C05": dict(
+        text="Full on the v2 model for saturated executions (no Close; whenever the scheduler looks at an input, or the clock ticks while it waits on one, the input has data): every priority's in-flight count stays within its strategic share and whenever the scheduler waits for a release every handler is occupied, i.e. every priority holds exactly its share -- for ANY divider (C05_v2_share_bound, C05_v2_full_when_quiet); the weaker reading of saturation that ignores clock ticks is refuted by a kernel-checked counterexample with an unbuffered input (C05_v2_literal_saturation_refuted), which is why the property speaks of buffered inputs. Tied to v2 by exact comparison of the in-flight vector with inputs pre-filled before New(); share bound and 'quiet => exactly the shares' monitored against independently computed shares, including priorities >= 2^63.",
+        ref="5.C05", note=STD + "No axioms.",
+        technique="Coq invariant over saturated executions + fake-time differential correspondence"),
+    "C06": dict(
+        text="Partial (bounded-progress lemmas, no theorem about infinite runs): on the v2 model the scheduler waits for a release only when one is owed (C06_v2_no_wait_when_idle); from the top of a round with nothing in flight and some undrained input holding data an item is written to the output within 3n+1 own steps with no release (C06_v2_round_delivers(_auto)); a priority alone in having data, from a clean state and with the output drained, reaches HandlersQuantity in flight (C06_v2_alone_gets_all). Global 'eventually delivered' under weak fairness is argued from these in DESIGN.md, not mechanised. Correspondence on progress per operation; monitors: never 'quiet, nothing in flight, data waiting'; everything delivered by the end of a releasing finale; the alone clause from a clean state. v1 accepts configurations with a zero share, for which the property fails: recorded known finding (v1 has no constructor check).",
+        ref="5.C06, 6 (D4)", note=STD + "No axioms. Fairness of Go's select (unbuffered inputs, v1 selects) is an assumption, not modelled probabilistically.",
+        technique="Coq bounded-reachability lemmas (variant + no-blocking) + fake-time differential correspondence"),
+    "C07": dict(
+        text="Safety full, promptness partial, on the v2 model: the discipline is Done only with nothing in the output, held or in the feedback channel and, without an error, every configured input closed and empty (C07_v2_done_only_when); no error is ever reported for a divider that obeys the sum rule or adds nothing (C07_v2_no_error); once every input is closed and empty and nothing is in the output or held, the scheduler alone reaches Done within an explicit bound provided no item sits inside send (C07_v2_prompt_partial; the general statement is refuted for that pc by a kernel-checked counterexample: a consumer must still take the item). Tied to v2/v1 by exact comparison of the operation at which termination is observed and of Err(); closure never early / always by the end of the finale / nil error monitored (v1: GracefulStop).",
+        ref="5.C07", note=STD + "No axioms.",
+        technique="Coq invariant + bounded-reachability proof + fake-time differential correspondence"),
+    "C15": dict(
+        text="Full on the v2 model: every divider call made by the discipline has an order-preserving sub-list of the configured priorities (hence distinct and, the configuration being sorted, sorted) and a dividend <= HandlersQuantity (C15_v2_contract(_sorted)); a division whose non-zero total differs from the dividend is detected (C15_v2_bad_sum_detected), after which nothing more is delivered and only Drain/Done follow (C15_v2_fault_stops), capacity still holds (C01 is proved for arbitrary dividers) and the discipline terminates with the error once the outstanding releases have arrived (C15_v2_drain_terminates); the constructor rejects a bad division and any configuration with a zero share (C15_new_rejects_*; regression theorem about the pinned code). Tied to v2 and v1 by exact comparison of divider-call arguments, error value and deliveries under fault injection at a random call (surplus inside or OUTSIDE the sub-list the divider was called with); contract and fail-safe clauses monitored.",
+        ref="5.C15, 6 (D2)", note=STD + "No axioms. A divider that returns an all-zero distribution is accepted by design (the Go code's `after == 0` escape).",
+        technique="Coq invariant over a call-indexed arbitrary divider + fault-injection differential correspondence"),
     "C03": dict(
         text="Full, unbounded on the model: for every accepted event trace of the join/unite program-counter machine (all three variants; ticks at arbitrary instants, arbitrary consumer delays, copy and no-copy) the concatenation of the emitted slices plus what the machine still holds equals the concatenation of the received items (C03_join_concat_prefix), hence equality at termination; no slice is empty, join slices have at most JoinSize elements, a unite slice exceeds JoinSize only if it is one forwarded input slice of at least JoinSize. The machine is tied to v2 join, v2 unite and v1 join by exact comparison of fake-time traces (testing/synctest) on random timed scenarios, and the clauses are monitored on the implementation.",
         ref="5.C03", note=STD + "No axioms. Modelled, not verified: Go channel/select/ticker semantics as in DESIGN.md section 4; v1 Stop events are excluded from C03 (covered by C16).",
